@@ -13,7 +13,8 @@
  *                           page PROT_NONE), !pendnz=N (same but *without* NUL), !cross=N (string N crossing a page
  *                           boundary, both mapped), !run=L (L bytes 'a', no NUL, up to a PROT_NONE page), !runz=L (L bytes
  *                           'a' + NUL), !how=F,M,R (struct open_how), !howpend=F (open_how whose first 8 bytes are the
- *                           last 8 of a page, rest PROT_NONE), !hownone (open_how on a PROT_NONE page)
+ *                           last 8 of a page, rest PROT_NONE), !hownone (open_how on a PROT_NONE page),
+ *                           !at=A,N (string N placed at the exact address A, page(s) mapped MAP_FIXED)
  *   fork{ ... }  vfork{ ... }  thread{ ... }  daemon{ ... }     run the nested block in a child / vfork child / thread /
  *                           double-forked setsid'ed signal-ignoring grandchild; R line carries the child's pid
  *   wait                    wait4(-1) until ECHILD          waitn:<k>   reap k children
@@ -167,6 +168,14 @@ static i64 parg(const char *f) {
     u64 np = (tot + PAGE - 1) / PAGE + 1; if (np < 2) np = 2;
     char *p = map_pages(np, 1); if (!p) return 8;
     char *d = p + (np - 1) * PAGE - tot; memset(d, 'a', l); if (z) d[l] = 0; return (i64)d;
+  }
+  if (pfx(f, "at=")) {
+    /* string N at the exact address A (what a Go tracee's heap strings look like: 0xc000......) */
+    const char *e; u64 a = (u64)pint(f + 3, &e); const char *s = strn((*e == ',') ? pint(e + 1, 0) : 0); u64 l = slen(s) + 1;
+    u64 base = a & ~(PAGE - 1); u64 np = ((a + l) - base + PAGE - 1) / PAGE;
+    i64 p = sc6(SYS_mmap, (i64)base, (i64)(np * PAGE), 3, 0x32 /* PRIVATE|ANONYMOUS|FIXED */, -1, 0);
+    if (p < 0 && p > -4096) return 8;
+    memcpy((char *)a, s, l); return (i64)a;
   }
   if (pfx(f, "howpend=")) {
     char *p = map_pages(2, 1); if (!p) return 8;
